@@ -123,7 +123,8 @@ def line_wrap_by_sentence(
 
         # Handle width <= 0 as "no wrapping"
         if width <= 0:
-            return initial_indent + text.strip()
+            # Collapse whitespace runs as wrapping does (words are split and rejoined).
+            return initial_indent + " ".join(text.split())
 
         lines: list[str] = []
         first_line = True
